@@ -242,7 +242,48 @@ fn post_fi<T: FrequentItemValue + Eq + std::hash::Hash + Clone>(mut s: FrequentI
     }
 }
 
+/// Entry points left out for one input (libFuzzer target only, see `prescreen`).
+#[derive(Default, Clone, Copy, Debug)]
+pub struct Skip {
+    pub bloom: bool,
+    pub countmin: bool,
+    pub fi: bool,
+}
+
+pub fn alloc_cap_for(len: usize) -> usize {
+    // "out of proportion to the input length": one request above max(64 MiB, 4096 x len)
+    (64usize << 20).max(4096 * len)
+}
+
+/// The recorded known findings K2-K6 are format-inherent amplifications: an image whose *declared* Bloom bit
+/// array, Count-Min table or Frequent Items map exceeds the cap. A coverage-guided campaign would rediscover
+/// them forever (an allocation violation cannot be survived in-process), so the libFuzzer target leaves the
+/// affected entry points out for exactly those inputs and counts them. The fork-server engine does not
+/// pre-screen: there the violations are matched against the known signatures after the fact.
+pub fn prescreen(b: &[u8]) -> Skip {
+    let cap = alloc_cap_for(b.len()) as u64;
+    let mut s = Skip::default();
+    if b.len() >= 20 {
+        let longs = i32::from_le_bytes([b[16], b[17], b[18], b[19]]);
+        s.bloom = longs > 0 && (longs as u64) * 8 + 64 > cap;
+    }
+    if b.len() >= 13 {
+        let buckets = u32::from_le_bytes([b[8], b[9], b[10], b[11]]) as u64;
+        let hashes = b[12] as u64;
+        s.countmin = buckets.saturating_mul(hashes).saturating_mul(8) + 64 > cap;
+    }
+    if b.len() >= 5 {
+        // 2^lg_cur slots of up to 24 bytes (String keys) + 8 (values) + 2 (states), allocated separately
+        s.fi = b[4] >= 22 || b[3] >= 22;
+    }
+    s
+}
+
 pub fn exercise(bytes: &[u8]) -> Outcome {
+    exercise_masked(bytes, Skip::default())
+}
+
+pub fn exercise_masked(bytes: &[u8], skip: Skip) -> Outcome {
     let mut o = Outcome::default();
     entry(&mut o, "HllSketch::deserialize", || HllSketch::deserialize(bytes), post_hll);
     entry(&mut o, "CompactThetaSketch::deserialize", || CompactThetaSketch::deserialize(bytes), post_compact);
@@ -251,19 +292,45 @@ pub fn exercise(bytes: &[u8]) -> Outcome {
     entry(&mut o, "CpcWrapper::new", || CpcWrapper::new(bytes), post_wrapper);
     entry(&mut o, "TDigestMut::deserialize(f64)", || TDigestMut::deserialize(bytes, false), post_td);
     entry(&mut o, "TDigestMut::deserialize(f32)", || TDigestMut::deserialize(bytes, true), post_td);
-    entry(&mut o, "BloomFilter::deserialize", || BloomFilter::deserialize(bytes), post_bloom);
-    entry(&mut o, "CountMinSketch<u8>::deserialize", || CountMinSketch::<u8>::deserialize(bytes), post_cm);
-    entry(&mut o, "CountMinSketch<u16>::deserialize", || CountMinSketch::<u16>::deserialize(bytes), post_cm);
-    entry(&mut o, "CountMinSketch<u32>::deserialize", || CountMinSketch::<u32>::deserialize(bytes), post_cm);
-    entry(&mut o, "CountMinSketch<u64>::deserialize", || CountMinSketch::<u64>::deserialize(bytes), post_cm);
-    entry(&mut o, "CountMinSketch<i8>::deserialize", || CountMinSketch::<i8>::deserialize(bytes), post_cm);
-    entry(&mut o, "CountMinSketch<i16>::deserialize", || CountMinSketch::<i16>::deserialize(bytes), post_cm);
-    entry(&mut o, "CountMinSketch<i32>::deserialize", || CountMinSketch::<i32>::deserialize(bytes), post_cm);
-    entry(&mut o, "CountMinSketch<i64>::deserialize", || CountMinSketch::<i64>::deserialize(bytes), post_cm);
-    entry(&mut o, "FrequentItemsSketch<i64>::deserialize", || FrequentItemsSketch::<i64>::deserialize(bytes), |s| post_fi(s, 7i64));
-    entry(&mut o, "FrequentItemsSketch<u64>::deserialize", || FrequentItemsSketch::<u64>::deserialize(bytes), |s| post_fi(s, 7u64));
-    entry(&mut o, "FrequentItemsSketch<String>::deserialize", || FrequentItemsSketch::<String>::deserialize(bytes), |s| post_fi(s, "seven".to_string()));
+    if !skip.bloom {
+        entry(&mut o, "BloomFilter::deserialize", || BloomFilter::deserialize(bytes), post_bloom);
+    }
+    if !skip.countmin {
+        entry(&mut o, "CountMinSketch<u8>::deserialize", || CountMinSketch::<u8>::deserialize(bytes), post_cm);
+        entry(&mut o, "CountMinSketch<u16>::deserialize", || CountMinSketch::<u16>::deserialize(bytes), post_cm);
+        entry(&mut o, "CountMinSketch<u32>::deserialize", || CountMinSketch::<u32>::deserialize(bytes), post_cm);
+        entry(&mut o, "CountMinSketch<u64>::deserialize", || CountMinSketch::<u64>::deserialize(bytes), post_cm);
+        entry(&mut o, "CountMinSketch<i8>::deserialize", || CountMinSketch::<i8>::deserialize(bytes), post_cm);
+        entry(&mut o, "CountMinSketch<i16>::deserialize", || CountMinSketch::<i16>::deserialize(bytes), post_cm);
+        entry(&mut o, "CountMinSketch<i32>::deserialize", || CountMinSketch::<i32>::deserialize(bytes), post_cm);
+        entry(&mut o, "CountMinSketch<i64>::deserialize", || CountMinSketch::<i64>::deserialize(bytes), post_cm);
+    }
+    if !skip.fi {
+        entry(&mut o, "FrequentItemsSketch<i64>::deserialize", || FrequentItemsSketch::<i64>::deserialize(bytes), |s| post_fi(s, 7i64));
+        entry(&mut o, "FrequentItemsSketch<u64>::deserialize", || FrequentItemsSketch::<u64>::deserialize(bytes), |s| post_fi(s, 7u64));
+        entry(&mut o, "FrequentItemsSketch<String>::deserialize", || FrequentItemsSketch::<String>::deserialize(bytes), |s| post_fi(s, "seven".to_string()));
+    }
     o
+}
+
+/// One libFuzzer iteration (target `deser` in /verif/fuzz). The oracle sits inside the target: any panic behind a
+/// deserializer or a post-operation, or an allocation request above the cap, aborts the process so that libFuzzer
+/// keeps the input. Verdicts are not taken from here: artifacts and the grown corpus are re-judged by the
+/// fork-server engine in both build profiles.
+pub fn fuzz_one(bytes: &[u8]) {
+    static INIT: std::sync::Once = std::sync::Once::new();
+    INIT.call_once(|| {
+        crate::kit::runner::install_panic_hook();
+        crate::kit::alloc::ABORT_ON_VIOLATION.store(true, std::sync::atomic::Ordering::Relaxed);
+    });
+    let skip = prescreen(bytes);
+    crate::kit::alloc::set_cap(alloc_cap_for(bytes.len()));
+    let o = exercise_masked(bytes, skip);
+    crate::kit::alloc::set_cap(usize::MAX);
+    if let Some(f) = o.fails.first() {
+        eprintln!("FUZZ-FAIL entry={} sig={} :: {}", f.entry, f.sig, f.detail);
+        std::process::abort();
+    }
 }
 
 /// `vcheck --worker`: frames = u32 LE length + bytes on stdin; one JSON line per input on stdout.
@@ -283,8 +350,7 @@ pub fn worker_main() -> ! {
         if inp.read_exact(&mut buf).is_err() {
             std::process::exit(0);
         }
-        // "out of proportion to the input length": one request above max(64 MiB, 4096 x len)
-        crate::kit::alloc::set_cap((64usize << 20).max(4096 * len));
+        crate::kit::alloc::set_cap(alloc_cap_for(len));
         let o = exercise(&buf);
         crate::kit::alloc::set_cap(usize::MAX);
         let line = serde_json::to_string(&o).unwrap();
@@ -897,6 +963,138 @@ fn scripts_sub(ctx: &Ctx) -> SubReport {
     engine(ctx, "mutation_scripts", inputs, "proptest-generated mutation scripts (1..4 of: bit flip, byte set, boundary value in a 1/2/4/8-byte field, splice from another seed, truncate, extend, field arithmetic; positions biased to the preamble) applied to the seed images, plus random bytes behind a valid (preamble, version, family) header; same oracle and both build profiles")
 }
 
+// =========================================================================================
+// E4: coverage-guided generation (libFuzzer) judged by the fork-server engine
+
+fn read_dir_files(dir: &str, max_len: usize) -> Vec<Vec<u8>> {
+    let mut names: Vec<std::path::PathBuf> = match std::fs::read_dir(dir) {
+        Ok(rd) => rd.filter_map(|e| e.ok()).map(|e| e.path()).filter(|p| p.is_file()).collect(),
+        Err(_) => vec![],
+    };
+    names.sort();
+    names.into_iter().filter_map(|p| std::fs::read(p).ok()).filter(|b| b.len() <= max_len).collect()
+}
+
+/// Committed regression corpus (coverage-distinct inputs kept from earlier libFuzzer campaigns, minimised with
+/// `tools/refresh_corpus.sh`): replayed through the engine in every tier.
+fn corpus_sub(ctx: &Ctx) -> SubReport {
+    let dir = format!("{}/corpus/c14", crate::verif_root());
+    let inputs = read_dir_files(&dir, 1 << 20);
+    let n = inputs.len();
+    let mut rep = engine(ctx, "fuzz_corpus", inputs, "committed corpus of coverage-distinct inputs found by earlier libFuzzer campaigns over the `deser` target (seeded with the C14 seed images), replayed through the 19 entry points and post-operations in both build profiles; non-trivial = gets past the header checks of some entry point");
+    rep.extra.insert("corpus_files".into(), json!(n));
+    if n == 0 {
+        rep.inconclusive.push(format!("{dir} is empty or missing"));
+    }
+    rep
+}
+
+/// Thorough tier only: build the libFuzzer target, run a fixed-work campaign (`-jobs`), then judge every artifact
+/// and every corpus unit it produced with the engine (both profiles). libFuzzer is the generator; the verdict
+/// comes from the same oracle as the other sub-checks, so a crash of the fuzzer itself is never a violation.
+fn libfuzzer_sub(ctx: &Ctx) -> SubReport {
+    let rule = "coverage-guided campaign: libFuzzer over the `deser` target (all 19 entry points + post-operations, capping allocator, debug assertions on), started from the seed images and the committed corpus, fixed work per job; every crash artifact and every corpus unit is then re-judged by the fork-server engine in both build profiles. non-trivial = gets past the header checks of some entry point";
+    let mut rep = SubReport { rule: rule.to_string(), ..Default::default() };
+    if ctx.tier == crate::kit::Tier::Quick {
+        rep.rule = "(thorough tier only: coverage-guided libFuzzer campaign; the quick tier replays the committed corpus, see fuzz_corpus)".into();
+        return rep;
+    }
+    let root = crate::verif_root();
+    let run = |cmd: &mut std::process::Command| -> Result<String, String> {
+        match cmd.output() {
+            Ok(o) if o.status.success() => Ok(String::from_utf8_lossy(&o.stderr).into_owned()),
+            Ok(o) => Err(format!("{:?}: {}", o.status, String::from_utf8_lossy(&o.stderr).lines().rev().take(6).collect::<Vec<_>>().join(" | "))),
+            Err(e) => Err(format!("{e}")),
+        }
+    };
+    let built = run(std::process::Command::new("cargo")
+        .args(["+nightly", "fuzz", "build", "-s", "none", "--fuzz-dir"])
+        .arg(format!("{root}/fuzz"))
+        .arg("deser")
+        .env("CARGO_NET_OFFLINE", "true")
+        .current_dir(&root));
+    if let Err(e) = built {
+        rep.inconclusive.push(format!("cargo +nightly fuzz build failed, the coverage-guided campaign did not run: {e}"));
+        return rep;
+    }
+    let bin = format!("{root}/fuzz/target/x86_64-unknown-linux-gnu/release/deser");
+    let work = format!("{root}/fuzz/corpus/run-{}", std::process::id());
+    let corpus = format!("{work}/corpus");
+    let arts = format!("{work}/artifacts/");
+    let _ = std::fs::remove_dir_all(&work);
+    std::fs::create_dir_all(&corpus).expect("corpus dir");
+    std::fs::create_dir_all(&arts).expect("artifact dir");
+    let mut initial = BTreeSet::new();
+    for (i, (_, img)) in seeds().iter().enumerate() {
+        let _ = std::fs::write(format!("{corpus}/seed-{i:04}"), img);
+        initial.insert(crate::kit::fnv64(img));
+    }
+    for (i, b) in read_dir_files(&format!("{root}/corpus/c14"), 1 << 20).iter().enumerate() {
+        let _ = std::fs::write(format!("{corpus}/kept-{i:05}"), b);
+        initial.insert(crate::kit::fnv64(b));
+    }
+    let jobs = ctx.threads.max(1);
+    let runs = ctx.cases(0, 1_500_000);
+    let out = std::process::Command::new(&bin)
+        .arg(&corpus)
+        .arg(format!("-jobs={jobs}"))
+        .arg(format!("-workers={jobs}"))
+        .arg(format!("-runs={runs}"))
+        .arg(format!("-seed={}", ctx.seed.wrapping_mul(2654435761) % 4_000_000_000 + 1))
+        .args(["-max_len=4096", "-len_control=0", "-timeout=60", "-rss_limit_mb=8192", "-reload=1", "-print_final_stats=1"])
+        .arg(format!("-artifact_prefix={arts}"))
+        .current_dir(&work)
+        .output();
+    if let Err(e) = &out {
+        rep.inconclusive.push(format!("could not start the libFuzzer binary: {e}"));
+        return rep;
+    }
+    // per-job logs: executed units, coverage
+    let mut execs = 0u64;
+    let mut cov = 0u64;
+    let mut ft = 0u64;
+    for j in 0..jobs {
+        if let Ok(log) = std::fs::read_to_string(format!("{work}/fuzz-{j}.log")) {
+            for l in log.lines() {
+                if let Some(v) = l.strip_prefix("stat::number_of_executed_units:") {
+                    execs += v.trim().parse::<u64>().unwrap_or(0);
+                }
+                if l.starts_with('#') && l.contains(" cov: ") {
+                    let grab = |k: &str| l.split(k).nth(1).and_then(|t| t.split_whitespace().next()).and_then(|t| t.parse::<u64>().ok()).unwrap_or(0);
+                    cov = cov.max(grab(" cov: "));
+                    ft = ft.max(grab(" ft: "));
+                }
+            }
+        }
+    }
+    let artifacts = read_dir_files(&arts, 1 << 20);
+    let units = read_dir_files(&corpus, 1 << 20);
+    let new_units: Vec<Vec<u8>> = units.into_iter().filter(|u| !initial.contains(&crate::kit::fnv64(u))).collect();
+    let (n_art, n_new) = (artifacts.len(), new_units.len());
+    let mut inputs = artifacts;
+    inputs.extend(new_units);
+    let mut judged = engine(ctx, "libfuzzer", inputs, rule);
+    judged.evaluations += execs;
+    judged.extra.insert("libfuzzer_executions".into(), json!(execs));
+    judged.extra.insert("libfuzzer_jobs".into(), json!(jobs));
+    judged.extra.insert("libfuzzer_edges_covered".into(), json!(cov));
+    judged.extra.insert("libfuzzer_features".into(), json!(ft));
+    judged.extra.insert("artifacts_judged".into(), json!(n_art));
+    judged.extra.insert("new_corpus_units_judged".into(), json!(n_new));
+    if execs == 0 {
+        judged.inconclusive.push("the libFuzzer jobs reported no executed units".into());
+    }
+    // keep the grown corpus for tools/refresh_corpus.sh only when asked; never touch committed files here
+    if let Ok(keep) = std::env::var("VERIF_KEEP_FUZZ_CORPUS") {
+        let _ = std::fs::create_dir_all(&keep);
+        for (i, b) in read_dir_files(&corpus, 1 << 20).iter().enumerate() {
+            let _ = std::fs::write(format!("{keep}/u-{:016x}-{i}", crate::kit::fnv64(b)), b);
+        }
+    }
+    let _ = std::fs::remove_dir_all(&work);
+    judged
+}
+
 fn replay(_ctx: &Ctx, case: &serde_json::Value) -> Result<(), Fail> {
     let bytes = unhex(case["hex"].as_str().unwrap_or(""));
     let profile = case["profile"].as_str().unwrap_or("release");
@@ -922,6 +1120,8 @@ pub fn def() -> PropDef {
         subs: vec![
             Box::new(FnSub { name: "catalogue", run: catalogue_sub, replay }),
             Box::new(FnSub { name: "mutation_scripts", run: scripts_sub, replay }),
+            Box::new(FnSub { name: "fuzz_corpus", run: corpus_sub, replay }),
+            Box::new(FnSub { name: "libfuzzer", run: libfuzzer_sub, replay }),
         ],
         post: None,
     }
